@@ -1,5 +1,7 @@
-(* A universe of Python values for the cache-key model (C15), with the fragments of Python's ==, <, hash()
-   and sorted() that pipefunc.cache.to_hashable exercises.  Definitions only (facts: Proofs/PyValFacts.v).
+(* A universe of Python values for the cache-key model (C15), with the fragments of Python's ==, hash() and the
+   canonical sort key (pipefunc.cache._sort_key) that pipefunc.cache.to_hashable exercises.  Python's own < is no
+   longer used by to_hashable (it raised on mixed types and is only a partial order on frozensets).
+   Definitions only (facts: Proofs/PyValFacts.v, Proofs/CKeyFacts.v).
 
    Scalars ("atoms") are a separate type so that inductions over values have few cases.
      AFloat q        the float q/4 (small dyadic values, exactly representable also as float32); no NaN/inf
@@ -83,18 +85,6 @@ Definition atom_eq (a b : atom) : bool :=
       | AOpaque c i _, AOpaque c' i' _ => str_eqb c c' && (i =? i')%Z
       | ADigest c i, ADigest c' i' => str_eqb c c' && (i =? i')%Z
       | _, _ => false
-      end
-  end.
-
-Definition atom_lt (a b : atom) : result bool :=
-  match numval a, numval b with
-  | Some x, Some y => Ok (x <? y)%Z
-  | _, _ =>
-      match a, b with
-      | AStr x, AStr y => Ok (str_ltb x y)
-      | ABytes x, ABytes y => Ok (str_ltb x y)
-      | AMasked, _ | _, AMasked | ADigest _ _, _ | _, ADigest _ _ => Err OtherError   (* not modelled, never sorted *)
-      | _, _ => Err TypeError                           (* '<' not supported between instances of ... *)
       end
   end.
 
@@ -194,40 +184,6 @@ Fixpoint py_hashable (v : pyval) : bool :=
   | PSetv KFrozenset _ => true
   | _ => false
   end.
-
-(* ---------- < ---------- *)
-(* kinds whose < exists in Python but is not modelled here (they are unhashable, hence never set elements or
-   dict keys, hence never reached by sorted() on a real value): an explicit OtherError, never an answer *)
-Definition exotic (v : pyval) : bool :=
-  match v with
-  | PA _ => false
-  | PSeq (KTuple | KList) _ => false
-  | PSeq _ _ => true
-  | PSetv _ _ => false
-  | PMap KCounter _ => true
-  | PMap _ _ => false
-  | PSeries _ _ _ _ | PFrame _ _ => true
-  end.
-
-Fixpoint py_lt (v w : pyval) {struct v} : result bool :=
-  let lex :=
-    (fix lex (l l' : list pyval) : result bool :=
-       match l, l' with
-       | [], [] => Ok false
-       | [], _ :: _ => Ok true
-       | _ :: _, [] => Ok false
-       | x :: t, y :: t' => if rel false x y then lex t t' else py_lt x y
-       end) in
-  match v, w with
-  | PA a, PA b => atom_lt a b
-  | PSeq KTuple l, PSeq KTuple l' => lex l l'
-  | PSeq KList l, PSeq KList l' => lex l l'
-  | PSetv _ l, PSetv _ l' =>                            (* proper subset - a PARTIAL order *)
-      Ok ((length l <? length l') && forallb (fun a => existsb (fun b => rel false a b) l') l)
-  | _, _ => if exotic v || exotic w then Err OtherError else Err TypeError
-  end.
-
-Definition py_sorted (l : list pyval) : result (list pyval) := py_sort py_lt l.
 
 (* ---------- the canonical sort key: pipefunc.cache._sort_key ----------
    A total order on hashable values that does not depend on insertion order or hash seed; to_hashable sorts set
